@@ -37,7 +37,8 @@ theorem text_forwarded (u : Uni) (k : Key) (pam ckm : Bool) (h : textDue k = tru
     by_cases h9 : k.keycode = KeyTab
     · right; intro h1; have h2 := htab h9; simp only [decide_eq_false_iff_not] at h2; exact h2 h1
     · left; exact h9
-  unfold encodeXterm
+  rw [encodeXterm_core_of_lt _ _ _ _ (by have := maxRune_lt_keypad; omega)]
+  unfold encodeXtermCore
   simp only [xm_eq]
   rw [encodeTables_char' _ _ _ _ _ hmax htab']
   by_cases hz : k.mods &&& 7 = 0 ∧ k.keycode < maxRune
@@ -72,7 +73,8 @@ theorem ctrl_char_total (u : Uni) (k : Key) (pam ckm : Bool)
   have ha7 : (k.mods &&& 7) &&& ModAlt = k.mods &&& ModAlt := (and7 k.mods ModAlt (by decide)).symm
   have hx0 : k.mods &&& 7 ≠ 0 := by intro h; rw [h] at hc7; exact hc7 (by decide)
   have hxs : k.mods &&& 7 ≠ ModShift := by intro h; rw [h] at hc7; exact hc7 (by decide)
-  unfold encodeXterm
+  rw [encodeXterm_core_of_lt _ _ _ _ (by have := maxRune_lt_keypad; omega)]
+  unfold encodeXtermCore
   simp only [xm_eq]
   rw [encodeTables_char _ _ _ _ _ hmax (Or.inr hxs)]
   simp only [hx0, if_false, hc, ha7, hmax, if_true, ne_eq, not_false_eq_true, false_and, and_false, hc7]
@@ -174,7 +176,8 @@ theorem shift_letter_core (u : Uni) (k : Key) (pam ckm : Bool) (c C : Int)
   have hc : k.mods &&& ModCtrl = 0 := by rw [and7 k.mods ModCtrl (by decide), hm7]; decide
   have htab : k.keycode ≠ KeyTab := by rw [hkc]; simp only [KeyTab]; omega
   constructor
-  · unfold encodeXterm
+  · rw [encodeXterm_core_of_lt _ _ _ _ (by have := maxRune_lt_keypad; omega)]
+    unfold encodeXtermCore
     simp only [xm_eq, hm7]
     rw [encodeTables_char _ _ _ _ _ (by rw [hkc]; exact hmax) (Or.inl htab)]
     rcases htx with ht | ht
@@ -221,7 +224,8 @@ theorem alt_shift_letter_roundtrip (u : Uni) (k : Key) (pam ckm : Bool) (c C : I
   have hc : k.mods &&& ModCtrl = 0 := by rw [and7 k.mods ModCtrl (by decide), hm7]; decide
   have htab : k.keycode ≠ KeyTab := by rw [hkc]; simp only [KeyTab]; omega
   constructor
-  · unfold encodeXterm
+  · rw [encodeXterm_core_of_lt _ _ _ _ (by have := maxRune_lt_keypad; omega)]
+    unfold encodeXtermCore
     simp only [xm_eq, hm7]
     rw [encodeTables_char _ _ _ _ _ (by rw [hkc]; exact hmax) (Or.inl htab)]
     have ha' : k.mods &&& 2 = 2 := ha
@@ -314,7 +318,8 @@ example : xtermLegacyU asciiUni 1092 0 0 = some (.print [1092]) := by decide
 /-- An unmodified key without text: the key code itself. -/
 theorem enc_plain (u : Uni) (k : Key) (pam ckm : Bool) (hm : k.mods &&& 7 = 0) (ht : k.text = [])
     (hk : k.keycode < maxRune) (hv : validRune k.keycode = true) : encodeXterm u k pam ckm = [k.keycode] := by
-  unfold encodeXterm
+  rw [encodeXterm_core_of_lt _ _ _ _ (by have := maxRune_lt_keypad; omega)]
+  unfold encodeXtermCore
   simp only [xm_eq, hm]
   rw [encodeTables_char _ _ _ _ _ hk (Or.inr (by decide))]
   simp [ht, strOfRune, hv]
